@@ -5,6 +5,7 @@ package ggml
 
 import (
 	"bytes"
+	"errors"
 	"fmt"
 	"io"
 	"math"
@@ -102,8 +103,31 @@ func verifGenKV(r *zzverif.Rng) []verifKV {
 	var out []verifKV
 	pool := []string{"general.architecture", "general.name", "a", "b", "A", "llama.block_count", "tokenizer.ggml.tokens", "zz", "a.b", "\xff\x00k", ""}
 	if r.Chance(1, 2) {
-		aligns := []uint32{1, 2, 8, 32, 64, 4096, 3, 7}
-		out = append(out, verifKV{"general.alignment", "u32", zzverif.Pick(r, aligns)})
+		aligns := []uint32{1, 2, 8, 32, 64, 4096, 3, 7, 12, 100}
+		kv := verifKV{"general.alignment", "u32", zzverif.Pick(r, aligns)}
+		if r.Chance(1, 6) {
+			// the key with every other supported value type, and zero: a map over the supported value types the writer is
+			// handed like any other (finding C05 F1c: upstream's writer accepts these, its decoder rejects the file)
+			switch r.Intn(8) {
+			case 0:
+				kv = verifKV{"general.alignment", "u32", uint32(0)}
+			case 1:
+				kv = verifKV{"general.alignment", "str", zzverif.Pick(r, []string{"32", "abc", ""})}
+			case 2:
+				kv = verifKV{"general.alignment", "f32", float32(zzverif.Pick(r, []int{8, 32, 0}))}
+			case 3:
+				kv = verifKV{"general.alignment", "bool", r.Bool()}
+			case 4:
+				kv = verifKV{"general.alignment", "ai32", []int32{32}}
+			case 5:
+				kv = verifKV{"general.alignment", "au32", []uint32{8}}
+			case 6:
+				kv = verifKV{"general.alignment", "af32", []float32{}}
+			default:
+				kv = verifKV{"general.alignment", "astr", []string{"32"}}
+			}
+		}
+		out = append(out, kv)
 		seen["general.alignment"] = true
 	}
 	for len(out) < n {
@@ -320,11 +344,66 @@ func verifC05FailingSource(out *zzverif.Out, dir string, kvs []verifKV, ts []ver
 	defer os.Remove(f.Name())
 	defer f.Close()
 	out.Count("failing_source_cases")
-	if err := WriteGGUF(f, kv, gts); err == nil {
+	if err := verifC05CallWrite(f, kv, gts); err == nil {
 		st, _ := f.Stat()
 		out.L2("source-error-swallowed", fmt.Sprintf("gguf-failsrc %d ", bad)+verifKVLine(kvs)+" "+verifTensorLine(ts),
 			fmt.Sprintf("the source of tensor #%d (%q) failed after %d of %d bytes, WriteGGUF returned nil and left a file of %d bytes", bad, ts[bad].name, len(ts[bad].data)/2, len(ts[bad].data), st.Size()))
 	}
+}
+
+// verifC05Variant: which writer the tree has, probed on the real code (variant argument of the `gguf-enc` oracle command).
+// Bit 1: WriteGGUF refuses a general.alignment that is not a non-zero uint32 (finding C05 F1c repaired); the model has both
+// writers, the run follows the tree, and the lenient writer's consequence is reported by L2 (decode-error on a written file).
+var verifC05VariantCache = -1
+
+func verifC05Variant(dir string) int {
+	if verifC05VariantCache >= 0 {
+		return verifC05VariantCache
+	}
+	f, err := os.Create(filepath.Join(dir, "c05-probe.gguf"))
+	if err != nil {
+		panic(err)
+	}
+	defer os.Remove(f.Name())
+	defer f.Close()
+	verifC05VariantCache = 0
+	if err := WriteGGUF(f, KV{"general.alignment": "abc"}, nil); err != nil {
+		verifC05VariantCache = 2
+	}
+	return verifC05VariantCache
+}
+
+// verifC05CallWrite: WriteGGUF with a run-time panic turned into an error (upstream's writer divides by a zero alignment
+// as soon as there is a tensor to pad)
+func verifC05CallWrite(f *os.File, kv KV, gts []Tensor) (err error) {
+	defer func() {
+		if p := recover(); p != nil {
+			err = fmt.Errorf("panic: %v", p)
+		}
+	}()
+	return WriteGGUF(f, kv, gts)
+}
+
+// verifErrClass: a decoder error as the oracle prints it (the three classes callers can tell apart)
+func verifErrClass(err error) string {
+	switch {
+	case errors.Is(err, io.EOF):
+		return "err:eof"
+	case errors.Is(err, io.ErrUnexpectedEOF):
+		return "err:ueof"
+	}
+	return "err:invalid"
+}
+
+// verifC05AlignValid: the key is absent or a non-zero uint32 (the inputs for which a file can exist at all)
+func verifC05AlignValid(kvs []verifKV) bool {
+	for _, e := range kvs {
+		if e.key == "general.alignment" {
+			a, ok := e.val.(uint32)
+			return ok && a != 0
+		}
+	}
+	return true
 }
 
 // verifWrite runs the real WriteGGUF into a real file and returns the bytes and the
@@ -348,7 +427,7 @@ func verifWrite(dir string, kvs []verifKV, ts []verifTensor) (data []byte, order
 	}
 	defer os.Remove(f.Name())
 	defer f.Close()
-	if err := WriteGGUF(f, kv, gts); err != nil {
+	if err := verifC05CallWrite(f, kv, gts); err != nil {
 		return nil, nil, err
 	}
 	for _, g := range gts {
@@ -467,18 +546,36 @@ func verifC05Case(out *zzverif.Out, dir string, kvs []verifKV, ts []verifTensor,
 			out.Count("tensor_size_checked_independently")
 		}
 	}
+	variant := verifC05Variant(dir)
+	if !verifC05AlignValid(kvs) {
+		out.Count("cases_alignment_invalid")
+	}
 	data, order, err := verifWrite(dir, kvs, ts)
 	if err != nil {
 		out.Count("write_error")
-		out.L2("write-error", verifKVLine(kvs)+" "+verifTensorLine(ts), err.Error())
+		// the writer refused: compared with the model (L1); a refusal of an input whose alignment is valid is a failure
+		impl := "err:invalid"
+		if strings.Contains(err.Error(), "panic:") {
+			impl = "panic:other"
+			if strings.Contains(err.Error(), "divide by zero") {
+				impl = "panic:alignment-zero"
+			}
+		}
+		out.Case(fmt.Sprintf("gguf-enc %d ", variant)+verifKVLine(kvs)+" "+verifTensorLine(ts), impl)
+		if verifC05AlignValid(kvs) {
+			out.L2("write-error", fmt.Sprintf("gguf-enc %d ", variant)+verifKVLine(kvs)+" "+verifTensorLine(ts), err.Error())
+		} else {
+			out.Count("write_refused_invalid_alignment")
+		}
+		out.Count("cases")
 		return
 	}
-	encLine := "gguf-enc 0 " + verifKVLine(kvs) + " " + verifTensorLine(order)
+	encLine := fmt.Sprintf("gguf-enc %d ", variant) + verifKVLine(kvs) + " " + verifTensorLine(order)
 	out.Case(encLine, "ok "+zzverif.Hex(data))
 	g, end, err := Decode(bytes.NewReader(data), maxArray)
 	decLine := fmt.Sprintf("gguf-dec %d - %s", maxArray, zzverif.Hex(data))
 	if err != nil {
-		out.Case(decLine, "err:"+err.Error())
+		out.Case(decLine, verifErrClass(err))
 	} else {
 		out.Case(decLine, verifSummary(g, end))
 	}
@@ -498,7 +595,7 @@ func verifC05Case(out *zzverif.Out, dir string, kvs []verifKV, ts []verifTensor,
 			g2, end2, err2 := Decode(rd, maxArray)
 			atLine := fmt.Sprintf("gguf-dec-at %d %d %s", maxArray, pre, zzverif.Hex(whole))
 			if err2 != nil {
-				out.Case(atLine, "err:"+err2.Error())
+				out.Case(atLine, verifErrClass(err2))
 			} else {
 				out.Case(atLine, verifSummary(g2, end2))
 				// property at the shifted position when the shift keeps the alignment: same tensors, locations moved by pre
@@ -525,8 +622,11 @@ func verifC05Case(out *zzverif.Out, dir string, kvs []verifKV, ts []verifTensor,
 		}
 	}
 	for _, e := range kvs {
-		if e.key == "general.alignment" && e.val.(uint32) != 32 {
+		if a, ok := e.val.(uint32); ok && e.key == "general.alignment" && a != 32 && a != 0 {
 			out.Count("cases_alignment_not_32")
+			if a&(a-1) != 0 {
+				out.Count("cases_alignment_not_power_of_two")
+			}
 		}
 		switch v := e.val.(type) {
 		case string:
@@ -612,6 +712,9 @@ func verifC05Replay(t *testing.T, out *zzverif.Out, dir, path string) {
 		t.Fatal(err)
 	}
 	toks := strings.Fields(strings.TrimSpace(string(b)))
+	if len(toks) >= 3 && toks[0] == "gguf-failsrc" {
+		toks = append([]string{"gguf-enc"}, toks[1:]...)
+	}
 	if len(toks) < 3 || toks[0] != "gguf-enc" {
 		t.Fatalf("bad replay line")
 	}
